@@ -41,16 +41,14 @@ namespace occa {
     memoryRing.addRef(mem);
   }
 
-  void modeMemory_t::removeMemoryRef(memory *mem) {
-    memoryRing.removeRef(mem);
+  bool modeMemory_t::removeMemoryRef(memory *mem) {
+    return memoryRing.removeRef(mem);
   }
 
   void modeMemory_t::removeModeMemoryRef() {
     if (modeBuffer == NULL) return;
 
-    modeBuffer->removeModeMemoryRef(this);
-
-    if (modeBuffer->needsFree()) {
+    if (modeBuffer->removeModeMemoryRef(this)) {
       delete modeBuffer;
     }
     modeBuffer = NULL;
